@@ -6,6 +6,7 @@ package vconsensus
 
 import (
 	"fmt"
+	"math"
 	"math/rand/v2"
 	"os"
 	"strconv"
@@ -14,6 +15,7 @@ import (
 	"github.com/NethermindEth/juno/consensus/tendermint"
 	"github.com/NethermindEth/juno/consensus/types"
 	"github.com/NethermindEth/juno/consensus/types/actions"
+	"github.com/NethermindEth/juno/core/felt"
 	"github.com/NethermindEth/juno/utils/log"
 	"github.com/NethermindEth/juno/verifh/lib"
 )
@@ -34,9 +36,10 @@ const (
 	kPrecommit
 	kTimeout
 	kStart
+	kSync
 )
 
-var kindName = [...]string{"PROPOSAL", "PREVOTE", "PRECOMMIT", "TIMEOUT", "START"}
+var kindName = [...]string{"PROPOSAL", "PREVOTE", "PRECOMMIT", "TIMEOUT", "START", "SYNC"}
 
 // msg is the harness' own compact form of a consensus message / timeout.
 // val 0 = nil id. Value ids are small integers stored in limb 0 of the felt;
@@ -57,6 +60,8 @@ func (m msg) String() string {
 		return fmt.Sprintf("TIMEOUT(%s h%d r%d)", m.step, m.h, m.r)
 	case kStart:
 		return "START"
+	case kSync:
+		return fmt.Sprintf("SYNC(h%d: proposal of v%d r%d val=%s vr=%d + precommits)", m.h, m.from, m.r, valStr(m.val), m.vr)
 	case kProposal:
 		return fmt.Sprintf("PROPOSAL(from v%d h%d r%d val=%s vr=%d)", m.from, m.h, m.r, valStr(m.val), m.vr)
 	}
@@ -150,7 +155,13 @@ func (c *config) pw(h types.Height, i int) types.VotingPower {
 	return c.power[c.hidx(h)][i]
 }
 
+// syncBit marks the sync sender in the monitor's sender masks: its one vote carries the whole power.
+const syncIdx = 31
+
 func (c *config) maskPower(h types.Height, mask uint32) types.VotingPower {
+	if mask&(1<<syncIdx) != 0 {
+		return c.total[c.hidx(h)]
+	}
 	p := c.power[c.hidx(h)]
 	var s types.VotingPower
 	for i := 0; mask != 0 && i < c.n; i, mask = i+1, mask>>1 {
@@ -192,6 +203,9 @@ type valset struct{ c *config }
 
 func (v valset) TotalVotingPower(h types.Height) types.VotingPower { return v.c.total[v.c.hidx(h)] }
 func (v valset) ValidatorVotingPower(h types.Height, a *starknet.Address) types.VotingPower {
+	if *a == syncSender {
+		return v.c.total[v.c.hidx(h)] // as the node's validator set does (consensus/mock.go)
+	}
 	return v.c.pw(h, idxOfAddr(a))
 }
 func (v valset) Proposer(h types.Height, r types.Round) starknet.Address {
@@ -221,6 +235,9 @@ type node struct {
 	logs     []*heightLog
 	timeouts []types.Timeout
 	seq      uint64
+	// every precommit delivered for a height above the validator's own at that time, any round
+	// (the per-round logs only keep rounds >= 0): (height, round, value) -> senders
+	futPC map[[3]int64]uint32
 }
 
 type event struct {
@@ -243,6 +260,7 @@ type sim struct {
 	decided  map[types.Height]uint64
 	decider  map[types.Height]int
 	decRound map[types.Height]types.Round
+	decVR    map[types.Height]types.Round
 	// byzantine proposers re-send their first proposal of a round instead of a new one
 	consistentProposer bool
 	seen               map[types.Height][]uint64 // value ids proposed at a height (adversary's alphabet)
@@ -270,6 +288,9 @@ type stats struct {
 	delivered, rejectedByAge                      int
 	skips, roundsByTimeout                        int
 	triggerSync, walWrites                        int
+	syncHonest, syncCommits                       int
+	syncUnusedOtherProposal, syncUnusedOther      int
+	syncTriggerBelowFutureQuorum                  int
 	nearQuorum                                    int // actions taken with exactly quorum power (edge hit)
 	belowQuorumIdle                               int
 	deepHits                                      int
@@ -278,7 +299,7 @@ type stats struct {
 func newSim(r *lib.Run, idx int, c *config, rng *rand.Rand) *sim {
 	s := &sim{
 		r: r, idx: idx, c: c, rng: rng, nodes: make([]*node, c.n),
-		decided: map[types.Height]uint64{}, decider: map[types.Height]int{}, decRound: map[types.Height]types.Round{},
+		decided: map[types.Height]uint64{}, decider: map[types.Height]int{}, decRound: map[types.Height]types.Round{}, decVR: map[types.Height]types.Round{},
 		seen: map[types.Height][]uint64{}, gossiped: map[msg]int32{}, hash: 1469598103934665603,
 		byzProps: map[[2]int64]msg{},
 	}
@@ -447,11 +468,15 @@ func (s *sim) handle(nd *node, in msg, acts []starknet.Action) {
 			committed = true
 		case *actions.TriggerSync:
 			s.st.triggerSync++
+			s.monTriggerSync(nd, in, a)
 		default:
 			s.violation("harness:unknown-action-type", fmt.Sprintf("action %T", a), nd, in)
 		}
 	}
 	if committed && !s.violated {
+		if in.kind == kSync {
+			s.st.syncCommits++
+		}
 		nd.h++
 		nd.round = -1
 		nd.timeouts = nd.timeouts[:0]
@@ -535,4 +560,111 @@ func (s *sim) byzSend(m msg, dests ...int) {
 		s.st.byzInj++
 		s.deliver(d, m)
 	}
+}
+
+// ---------------------------------------------------------------- catch-up through the sync protocol
+
+// monTriggerSync: a TriggerSync action claims that a quorum of precommits for one value exists at
+// a height above the validator's own; the precommits the harness delivered to it must contain one.
+func (s *sim) monTriggerSync(nd *node, in msg, a *actions.TriggerSync) {
+	if a.End <= nd.h || a.Start > a.End || a.Start < nd.h {
+		s.violation("sync:trigger-range-inconsistent", fmt.Sprintf("TriggerSync{Start:%d End:%d} while at height %d", a.Start, a.End, nd.h), nd, in)
+		return
+	}
+	// best support among the delivered precommits for one value in one round at height End
+	var best types.VotingPower
+	for k, mask := range nd.futPC {
+		if types.Height(k[0]) == a.End && k[2] != 0 {
+			best = max(best, s.c.maskPower(a.End, mask))
+		}
+	}
+	switch {
+	case s.c.isQuorum(a.End, best):
+	case s.c.isQuorum(nd.h, best):
+		// Juno compares the future height's votes with the CURRENT height's quorum; with validator
+		// sets that change between heights that is less than a quorum of the future height. No vote
+		// or decision depends on it (the action only starts a block fetch), so it is outside C12's
+		// statement: counted as an observation.
+		s.st.syncTriggerBelowFutureQuorum++
+	default:
+		s.violation("threshold:sync-triggered-below-quorum-of-future-precommits",
+			fmt.Sprintf("TriggerSync{Start:%d End:%d} at height %d: the precommits delivered for one value at height %d carry power %d - neither a quorum of that height (total %d) nor of the current one (total %d)",
+				a.Start, a.End, nd.h, a.End, best, s.c.total[s.c.hidx(a.End)], s.c.total[s.c.hidx(nd.h)]), nd, in)
+	}
+}
+
+// syncSender is the address consensus/sync attributes its single precommit to (the validator
+// set grants it quorum power: the sync path trusts the block it is handed).
+var syncSender = felt.FromUint64[starknet.Address](math.MaxUint64)
+
+// deliverSync plays the block fetcher + message extractor for validator `to`, which is behind:
+// the block decided for its current height is handed over in one ProcessSync call, built the way
+// consensus/sync.MessageExtractor builds it - a proposal attributed to the block's proposer in the
+// FIRST round that validator proposes in (the block does not carry its round), valid round -1, and
+// one precommit of the sync sender. The state machine must commit exactly that value and carry on
+// at the next height (with the future-height messages it already holds).
+func (s *sim) deliverSync(to int) bool {
+	nd := s.nodes[to]
+	if nd == nil || nd.done || s.violated {
+		return false
+	}
+	h := nd.h
+	val, decided := s.decided[h]
+	if !decided {
+		return false
+	}
+	p := s.c.proposer(h, s.decRound[h])
+	r := types.Round(0)
+	for s.c.proposer(h, r) != p {
+		r++
+	}
+	prop := msg{kind: kProposal, from: int8(p), h: h, r: r, val: val, vr: -1}
+	s.st.syncHonest++
+	s.steps++
+	in := msg{kind: kSync, from: prop.from, h: h, r: prop.r, val: prop.val, vr: prop.vr}
+	s.note(to, in)
+	s.monDelivered(nd, prop)
+	s.monDelivered(nd, msg{kind: kPrecommit, from: syncIdx, h: h, r: r, val: val})
+	v := valueOf(prop.val)
+	pr := &starknet.Proposal{MessageHeader: starknet.MessageHeader{Height: h, Round: r, Sender: addrOf(p)}, ValidRound: -1, Value: &v}
+	ps := []starknet.Precommit{{MessageHeader: starknet.MessageHeader{Height: h, Round: r, Sender: syncSender}, ID: idPtr(val)}}
+	before := nd.h
+	acts := nd.sm.ProcessSync(pr, ps)
+	s.handle(nd, in, acts)
+	if !s.violated && nd.h == before && !nd.done {
+		// Not judged (liveness, and C12 is about safety): the extractor attributes the block to the
+		// FIRST round its proposer proposes in; a validator that already holds another proposal of that
+		// proposer for that round (it equivocated, or the block was decided in a later round of the same
+		// proposer) keeps the first one and cannot use the body.
+		other := false
+		if rl := s.hl(nd, h).rl(r); rl != nil {
+			for _, pp := range rl.props {
+				other = other || pp.val != val
+			}
+		}
+		if other {
+			s.st.syncUnusedOtherProposal++
+		} else {
+			s.st.syncUnusedOther++
+		}
+	}
+	return true
+}
+
+// syncRandom: a validator that is behind (its height is decided by someone) gets the sync body.
+func (s *sim) syncRandom() bool {
+	var behind []int
+	for _, i := range s.c.correct {
+		nd := s.nodes[i]
+		if nd.done {
+			continue
+		}
+		if _, ok := s.decided[nd.h]; ok {
+			behind = append(behind, i)
+		}
+	}
+	if len(behind) == 0 {
+		return false
+	}
+	return s.deliverSync(behind[s.rng.IntN(len(behind))])
 }
